@@ -52,6 +52,7 @@ type TCPEnd struct {
 	Written  []byte // every byte accepted from this end's writer, in order
 	Reads    int
 	Faults   []WriteFault
+	LostWritten int // bytes accepted from this end's writer after the peer had closed (answered with RST: never delivered)
 	WriteErr int // number of failed writes on this end
 	FirstFail int // index of the first failed write (-1: none)
 
@@ -667,10 +668,17 @@ func (o *writeOp) Do() {
 		return
 	}
 	if e.Peer.closed && e.eof {
-		// the peer's FIN has arrived: a write now is answered with RST
-		n.Fired["write-to-closed-peer"]++
+		// The peer has closed and its FIN has arrived, but this end has not closed yet (its reader has not acted on the
+		// end of stream, or never does). As with a real socket in CLOSE_WAIT the write is accepted - and answered with
+		// RST: the bytes are lost, and every later operation on this end fails.
+		n.Fired["write-to-closed-peer-accepted-and-lost"]++
+		em.Data = o.data
+		em.Err = "lost: peer had closed"
+		e.Written = append(e.Written, o.data...)
+		e.LostWritten += len(o.data)
+		n.event("tcp-write-lost", e.Local.String(), e.Remote.String(), e.ID, strconv.Itoa(len(o.data)))
 		e.doReset()
-		fail(syscall.EPIPE, "peer-closed")
+		o.n = len(o.data)
 		return
 	}
 	accept := len(o.data)
